@@ -70,6 +70,8 @@ pub fn total() -> u64 {
 /// What the hooks said about one `parse_float` call.
 #[derive(Clone, Copy, Debug, Default, PartialEq, Eq)]
 pub struct Path {
+    /// negative_digit_comp: the scaled digits and the scaled halfway point have different limb counts (a power of 2^64 lies between them)
+    pub neg_limbs_differ: bool,
     pub seen: bool,
     pub mantissa: u64,
     pub exponent: i64,
@@ -127,6 +129,7 @@ pub fn path() -> Path {
                 p.slow_neg = true;
                 p.limbs = p.limbs.max(e.a).max(e.b);
                 p.slow_ord = e.c as i64;
+                p.neg_limbs_differ = e.a != e.b;
             }
             ROUND => {
                 if e.c != 0 {
